@@ -7,7 +7,13 @@ import TTV.Drv.Res
 namespace TTV.Drv.C08
 open TTV TTV.Sexp TTV.Result TTV.ResC08 TTV.Drv.Res
 
-def input? (s : Sexp) : Option Input := (shapeHist? s).map fun p => { shape := p.1, hist := p.2 }
+/-- `(shape history)` or `(shape history faults)`; faulting callbacks only over a linear stack -/
+def input? : Sexp → Option Input
+  | .list [s, h, f] => do
+      let p ← shapeHist? (.list [s, h])
+      let fs ← list? nat? f
+      if fs.isEmpty || linearTbt p.1 then some { shape := p.1, hist := p.2, faults := fs } else none
+  | s => (shapeHist? s).map fun p => { shape := p.1, hist := p.2 }
 
 def tbtCall? : Sexp → Option TbtCall
   | .list [t, s, a, b, g, d] => do
